@@ -366,7 +366,7 @@ K("C11.K.ioreader.fail", C11M, "verif_c11::ioreader_fail", {"C11": "D"}, needs=(
   note="reader failing at any call => Err(DeserializeUnexpectedEnd), no panic")
 K("C11.K.from_io", C11M, "verif_c11::from_io_two_messages", {"C11": "D"}, needs=(REF, PROBES), label="bounded(stream 6 bytes)", fns=["postcard::from_io"],
   note="from_io == take_from_bytes on every 6-byte stream and every short-read schedule; two consecutive messages")
-K("C11.K.writeflavor", C11M, "verif_c11::writeflavor_contract", {"C11": "D"}, needs=(REF, PROBES), label="bounded(block<=3)",
+K("C11.K.writeflavor", C11M, "verif_c11::writeflavor_contract", {"C11": "D", "C20": "D"}, needs=(REF, PROBES), label="bounded(block<=3)",
   fns=["postcard::ser::flavors::io::WriteFlavor::try_push", "postcard::ser::flavors::io::WriteFlavor::try_extend", "postcard::ser::flavors::io::WriteFlavor::finalize"],
   note="Ok from try_push / try_extend ==> exactly those bytes reached the writer, for a writer that accepts partial writes, becomes full (Ok(0)) or fails at any call")
 K("C11.K.to_io", C11M, "verif_c11::to_io_partial_writes", {"C11": "D"}, needs=(REF, PROBES), label="bounded(encoding<=4 bytes)",
